@@ -830,7 +830,7 @@ func gen(r *hx.Rng, n int, tier string) (out []string) {
 }
 
 func genAll(r *hx.Rng, n int, tier string) []string {
-	bd := budget{kg: 1, sg: 1, vfFull: 5, vfCheap: 11, ts: 1, tv: 2, ph: 1, cs: 1, cv: 8, search: 1000, maxIt: 3}
+	bd := budget{kg: 1, sg: 1, vfFull: 5, vfCheap: 11, ts: 1, tv: 2, ph: 1, cs: 1, cv: 8, search: 1000, maxIt: 2}
 	if tier == "thorough" {
 		bd = budget{kg: 8, sg: 6, vfFull: 40, vfCheap: 40, ts: 4, tv: 8, ph: 3, cs: 6, cv: 64, search: 20000, maxIt: 1000}
 	}
